@@ -210,6 +210,11 @@ func (commentsFam) ExecAll(cases []core.CaseIn, seed int64, emit func(c core.Cas
 		pk := i / perPkg
 		fmt.Fprintf(&b, "package p%d\n", pk)
 		for j := i; j < i+perPkg && j < len(lays); j++ {
+			if j == i+perPkg/3 {
+				// everything below lies under a //line directive (generated parsers, expanded templates): positions are
+				// reported in another file name and with other line numbers, attribution must not care
+				fmt.Fprintf(&b, "\n//line grammar%d.y:7\n\n", pk)
+			}
 			s := layoutSource(j, lays[j].cc.Ctx, lays[j].cc.Layout)
 			srcOf[j] = s
 			b.WriteString(s)
